@@ -167,6 +167,7 @@ class Check:
                     'evaluations but are counted once per lint run, not per function',
             'samples': samples or [{'note': 'no samples'}],
             'rules': {n: {'text': r['text'], 'instances': r['instances'], 'floor': r['floor'],
+                          'confirmed_by_hand': r.get('confirmed', r['floor']),
                           'failed': r['failed']} for n, r in self.rules.items()},
             'known_findings_hit': [f.key for f in hit],
             'advisories': [f.to_json() for f in self.advisories][:40],
